@@ -4,6 +4,8 @@ package chansim
 
 import (
 	"bytes"
+
+	"github.com/btcsuite/btcd/btcec/v2"
 	"fmt"
 	"sort"
 
@@ -33,10 +35,26 @@ func DumpCommit(c *channeldb.ChannelCommitment) string {
 		return hs[i].HtlcIndex < hs[j].HtlcIndex
 	})
 	for _, h := range hs {
+		// ExtraData is a serialisation detail (after a decode it holds
+		// the raw TLV stream the blinding point and custom records were
+		// parsed from); the parsed values are compared instead.
+		var bp []byte
+		h.BlindingPoint.WhenSomeV(func(k *btcec.PublicKey) {
+			bp = k.SerializeCompressed()
+		})
+		var crKeys []uint64
+		for k := range h.CustomRecords {
+			crKeys = append(crKeys, k)
+		}
+		sort.Slice(crKeys, func(i, j int) bool { return crKeys[i] < crKeys[j] })
+		cr := ""
+		for _, k := range crKeys {
+			cr += fmt.Sprintf("%d=%x,", k, h.CustomRecords[k])
+		}
 		fmt.Fprintf(&b, "\n  htlc in=%v id=%d log=%d amt=%d exp=%d out=%d "+
-			"hash=%x sig=%x onion=%x extra=%x", h.Incoming, h.HtlcIndex,
-			h.LogIndex, h.Amt, h.RefundTimeout, h.OutputIndex, h.RHash[:6],
-			h.Signature, h.OnionBlob[:4], []byte(h.ExtraData))
+			"hash=%x sig=%x onion=%x blinding=%x custom=%s", h.Incoming,
+			h.HtlcIndex, h.LogIndex, h.Amt, h.RefundTimeout, h.OutputIndex,
+			h.RHash[:6], h.Signature, h.OnionBlob[:4], bp, cr)
 	}
 	return b.String()
 }
